@@ -78,6 +78,8 @@ enum Via {
     ChainLeaves,
     /// the same through Builder::limit(leaf).limit(leaf)
     ChainLimitLeaves,
+    /// Builder::limit(tree) followed by max_itr / max_time of a plain bound
+    LimitThenBound,
 }
 
 fn run_case(cfg: RtCfg, prog: &Arc<Program>, lim: &Lim, via: Via, base: &[(u32, u128)]) -> Result<u64, String> {
@@ -104,6 +106,11 @@ fn run_case(cfg: RtCfg, prog: &Arc<Program>, lim: &Lim, via: Via, base: &[(u32, 
             add(add(b, l1), l2)
         }
         (Via::ChainLimitLeaves, Lim::Or(l1, l2)) => b.limit(l1.to_rt()).limit(l2.to_rt()),
+        (Via::LimitThenBound, Lim::Or(tree, leaf)) => match &**leaf {
+            Lim::N(a) => b.limit(tree.to_rt()).max_itr(*a),
+            Lim::T(x) => b.limit(tree.to_rt()).max_time(ns(*x)),
+            _ => unreachable!(),
+        },
         _ => unreachable!(),
     });
     let log = b.log.clone();
@@ -123,7 +130,7 @@ fn run_case(cfg: RtCfg, prog: &Arc<Program>, lim: &Lim, via: Via, base: &[(u32, 
     // Two bounds given one after the other through the builder: the documentation of
     // Builder::limit speaks of overwriting, the code combines them (either stops the run). The
     // statement does not settle it, so both readings are accepted for these chains.
-    if matches!(via, Via::ChainLeaves | Via::ChainLimitLeaves) {
+    if matches!(via, Via::ChainLeaves | Via::ChainLimitLeaves | Via::LimitThenBound) {
         if let Lim::Or(_, last) = lim {
             if got.len() == prefix(last) && got.as_slice() == &base[..got.len()] {
                 k = got.len();
@@ -226,6 +233,7 @@ fn limits(m: usize, ts: &[u64], depth2: bool) -> Vec<(Lim, Via)> {
             for leaf in ns_.iter().chain(tsl.iter()) {
                 out.push((Lim::And(Box::new(l2.clone()), Box::new(leaf.clone())), Via::Limit));
                 out.push((Lim::Or(Box::new(leaf.clone()), Box::new(l2.clone())), Via::Limit));
+                out.push((Lim::Or(Box::new(l2.clone()), Box::new(leaf.clone())), Via::LimitThenBound));
             }
         }
     }
@@ -257,7 +265,7 @@ impl Property for C11 {
         vec!["the time-ordered event sequence of a program is taken from the real unlimited run (differential), so the oracle does not depend on the tie rule".into()]
     }
     fn required_features(&self, _tier: Tier) -> Vec<&'static str> {
-        vec!["count_limit_equals_total", "time_limit_equals_a_timestamp", "time_limit_inside_tie_group", "and_tree", "or_tree", "builder_chain", "builder_chain_of_two_bounds_of_one_kind", "cut_with_remaining_events"]
+        vec!["count_limit_equals_total", "time_limit_equals_a_timestamp", "time_limit_inside_tie_group", "and_tree", "or_tree", "builder_chain", "builder_chain_of_two_bounds_of_one_kind", "cut_with_remaining_events", "builder_limit_tree_then_plain_bound"]
     }
     fn explore(&self, ctx: &mut Ctx) {
         let maxm = ctx.tier.pick(4, 5);
@@ -317,6 +325,9 @@ impl Property for C11 {
                             if via != Via::Limit {
                                 ctx.hit("builder_chain");
                             }
+                            if via == Via::LimitThenBound {
+                                ctx.hit("builder_limit_tree_then_plain_bound");
+                            }
                             if matches!(via, Via::ChainLeaves | Via::ChainLimitLeaves) {
                                 if let Lim::Or(a, b) = &lim {
                                     if matches!((&**a, &**b), (Lim::T(_), Lim::T(_)) | (Lim::N(_), Lim::N(_))) {
@@ -349,6 +360,7 @@ impl Property for C11 {
             "ChainTimeItr" => Via::ChainTimeItr,
             "ChainLeaves" => Via::ChainLeaves,
             "ChainLimitLeaves" => Via::ChainLimitLeaves,
+            "LimitThenBound" => Via::LimitThenBound,
             _ => Via::Limit,
         };
         let base = unlimited(cfg, &prog)?;
